@@ -150,7 +150,28 @@ pub fn check(sim: &mut Sim, prop: &str, d: &Delivery, w: &Walk, r: &[NetflowPack
             continue;
         }
         let Some(pk) = mpk else {
-            sim.stats.probe("mismatch_on_nonconformant_input_not_judged");
+            // No model attribution available (the delivery is not a conformant stream per the
+            // model, e.g. field widths the library does not decode, or garbage). Model-free
+            // rule: a returned packet that holds no value of a listed lossy class must still
+            // round-trip exactly.
+            match lossy_by_structure(el, &sim.parsers[d.p]) {
+                Some(why) => {
+                    sim.stats.probe("mismatch_not_judged_lossy_class_present");
+                    let _ = why;
+                }
+                None => {
+                    let observed = match &res {
+                        Ok(b) => format!("{} bytes", b.len()),
+                        Err(e) => format!("error {:?}", e),
+                    };
+                    sim.find(
+                        &format!("{}-reexport-mismatch", if prop == "C17" { "C17" } else { owner }),
+                        d.ev,
+                        format!("to_be_bytes of the v{} packet at offset {} ({} bytes on the wire) gives {}; the packet holds no value of a listed lossy class (durations, MAC, replaced strings, unknown protocol, signed numbers, variable-length fields, omitted sets)", ver, offs[i], len, observed),
+                    );
+                    return;
+                }
+            }
             continue;
         };
         let observed = match &res {
@@ -189,5 +210,73 @@ pub fn check(sim: &mut Sim, prop: &str, d: &Delivery, w: &Walk, r: &[NetflowPack
                 return;
             }
         }
+    }
+}
+
+use netflow_parser::variable_versions::data_number::{DataNumber, FieldValue};
+use netflow_parser::NetflowParser;
+
+fn lossy_value(v: &FieldValue) -> Option<&'static str> {
+    match v {
+        FieldValue::Duration(_) => Some("duration"),
+        FieldValue::MacAddr(_) => Some("mac"),
+        FieldValue::String(s) if s.contains('\u{fffd}') => Some("replaced string"),
+        FieldValue::ProtocolType(p) if crate::flat::proto_number(*p) == 145 => Some("unknown protocol"),
+        FieldValue::DataNumber(DataNumber::I32(_)) | FieldValue::DataNumber(DataNumber::I24(_)) => Some("signed number"),
+        _ => None,
+    }
+}
+
+/// Some(reason) if the returned packet holds a value (or shape) of a listed lossy class, judged
+/// from the library's own decoded structure and the parser's caches.
+pub fn lossy_by_structure(el: &NetflowPacket, parser: &NetflowParser) -> Option<&'static str> {
+    use netflow_parser::variable_versions::{ipfix, v9};
+    match el {
+        NetflowPacket::V9(x) => {
+            for fs in &x.flowsets {
+                if let v9::FlowSetBody::Data(d) = &fs.body {
+                    for r in &d.fields {
+                        for (_, (_, v)) in r {
+                            if let Some(w) = lossy_value(v) {
+                                return Some(w);
+                            }
+                        }
+                    }
+                }
+            }
+            None
+        }
+        NetflowPacket::IPFix(x) => {
+            let total: usize = 16 + x.flowsets.iter().map(|f| usize::from(f.header.length).max(4)).sum::<usize>();
+            if total != usize::from(x.header.length).max(16) {
+                return Some("omitted set");
+            }
+            let redefines = x.flowsets.iter().any(|f| matches!(f.body, ipfix::FlowSetBody::Template(_) | ipfix::FlowSetBody::OptionsTemplate(_)));
+            for fs in &x.flowsets {
+                let fields = match &fs.body {
+                    ipfix::FlowSetBody::Data(d) => &d.fields,
+                    ipfix::FlowSetBody::OptionsData(d) => &d.fields,
+                    _ => continue,
+                };
+                if redefines {
+                    return Some("template (re)defined in the same message");
+                }
+                let id = fs.header.header_id;
+                let varlen = parser.ipfix_parser.templates.get(&id).map(|t| t.fields.iter().any(|f| f.field_length == 65535)).unwrap_or(false)
+                    || parser.ipfix_parser.options_templates.get(&id).map(|t| t.fields.iter().any(|f| f.field_length == 65535)).unwrap_or(false);
+                if varlen {
+                    return Some("variable-length field");
+                }
+                for r in fields {
+                    for (_, (_, v)) in r {
+                        if let Some(w) = lossy_value(v) {
+                            return Some(w);
+                        }
+                    }
+                }
+            }
+            None
+        }
+        _ => None,
     }
 }
